@@ -368,6 +368,10 @@ func checkC09(c *Ctx) {
 		c.checkAtomicOnly("O2 atomic-only", f[0], f[1], f[2])
 	}
 	c.checkPrivateKeyBuffer("O4 private-key-buffer")
+	// a racing re-acquire must not unregister the scope another goroutine has just created (shared with C07 O3)
+	if fM, clr := c.field("", "scopeBucket", "s"), c.fn("", "scope", "clearMetrics"); fM != nil && clr != nil {
+		c.checkGapSafeDeletes("O1 lock-gap", fM, eng, clr)
+	}
 	c.checkLockPairing("O3 lock-pairing", pkgs, eng, 15)
 	c.checkLockOrder("O3 lock-order", pkgs, eng)
 	_ = token.NoPos
@@ -595,6 +599,10 @@ func (c *Ctx) returnsDerivedFromParam(g *ssa.Function, i int) bool {
 						return true
 					}
 				}
+			}
+			// strconv.AppendX / utf8.AppendRune return their first argument extended
+			if h := staticCallee(x); h != nil && h.Pkg != nil && (h.Pkg.Pkg.Path() == "strconv" || h.Pkg.Pkg.Path() == "unicode/utf8") && strings.HasPrefix(h.Name(), "Append") && len(x.Call.Args) > 0 {
+				return der(x.Call.Args[0], depth-1)
 			}
 		}
 		return false
